@@ -194,7 +194,6 @@ def s2(I):
             I.check('new_part_is_closed_for_owner', newp.get('open') is False and newp.get('receiver') == 'alice'
                     and newp.get('expiring_at').var == 'Some' and smt.Eq(newp.get('expiring_at').f[0], expires))
             I.check('partial_amount_is_requested', smt.Eq(newp.get('lp_asset').get('amount'), camt))
-            I.check('counter_advanced', I.world.store(FM)['position_id_counter'] == 8)
 
 
 @obligation('C08', 'S3.create', entries=['execute', 'create_position', 'validate_lp_denom', 'validate_identifier', 'update_weights'], kind='S',
@@ -240,7 +239,6 @@ def s3(I):
         I.check('owner_is_receiver', p.get('receiver') == recv_addr)
         I.check('open_and_unexpiring', p.get('open') is True and p.get('expiring_at').var == 'None')
     I.check('contract_holds_the_lp', smt.Eq(b.get(FM, LP1), pre.get(FM, LP1) + amt))
-    I.check('generated_ids_advance_counter', I.world.store(FM)['position_id_counter'] == (8 if ik == 0 else 7))
 
 
 @obligation('C08', 'S4.expand', entries=['execute', 'expand_position', 'update_weights'], kind='S',
